@@ -5,6 +5,7 @@ import (
 	"go/ast"
 	"go/token"
 	"go/types"
+	"sort"
 	"strings"
 )
 
@@ -120,11 +121,33 @@ func (c *FnCtx) specType(env *Env, e ast.Expr) types.Type {
 		}
 	case *ast.SelectorExpr:
 		if id, ok := x.X.(*ast.Ident); ok {
-			for _, p := range c.E.All {
-				if p.Types.Name() == id.Name {
-					if o, ok := p.Types.Scope().Lookup(x.Sel.Name).(*types.TypeName); ok {
-						return o.Type()
+			// first the packages the spec's own package imports (what `pkg.T` means in its source)
+			if env.spkg != nil {
+				for _, imp := range env.spkg.Imports() {
+					if imp.Name() == id.Name {
+						if o, ok := imp.Scope().Lookup(x.Sel.Name).(*types.TypeName); ok {
+							return o.Type()
+						}
 					}
+				}
+			}
+			// then any loaded package of that name, repo packages first, in a fixed order
+			var paths []string
+			for path, p := range c.E.All {
+				if p.Types.Name() == id.Name {
+					paths = append(paths, path)
+				}
+			}
+			sort.Slice(paths, func(i, j int) bool {
+				ri, rj := strings.HasPrefix(paths[i], RepoModule), strings.HasPrefix(paths[j], RepoModule)
+				if ri != rj {
+					return ri
+				}
+				return paths[i] < paths[j]
+			})
+			for _, path := range paths {
+				if o, ok := c.E.All[path].Types.Scope().Lookup(x.Sel.Name).(*types.TypeName); ok {
+					return o.Type()
 				}
 			}
 		}
@@ -382,6 +405,11 @@ func (c *FnCtx) specCall(env *Env, x *ast.CallExpr) Val {
 			v := c.eval(env, x.Args[0])
 			t := c.specType(env, x.Args[1])
 			return boolVal(eq(app("if_tab", v.T), c.typeTag(t)))
+		case "ifaceptr":
+			// ifaceptr(x): the data pointer held by an interface value (0 for a nil interface AND
+			// for an interface holding a typed nil pointer)
+			v := c.eval(env, x.Args[0])
+			return mathInt(app("if_ptr", v.T))
 		case "tagof":
 			t := c.specType(env, x.Args[0])
 			return mathInt(c.typeTag(t))
